@@ -10,7 +10,9 @@ RULE = ("same L1 scenarios as C05 with failure-heavy scripts; monitor: per-URL r
         "<= 10 x (number of (variant, alias) pairs naming the URL) + reconnect signals in its script; global request "
         "budget; files whose first alias answers well after <10 failures must be obtained; the same scenario is re-run "
         "under a second schedule and per-URL counts must be equal; non-trivial+distinct = distinct script-shape keys "
-        "with at least one failure")
+        "with at least one failure; plus whole runs of the real tool with 1-4 repositories, nthreads 1-8 (including "
+        "repositories >= nthreads) and a fault class per repository under a PRNG schedule: the run must end with an exit "
+        "status (no deadlock, request budget not exceeded) and no URL is requested more than 10 x rounds x 2 times")
 
 
 def bound_for(files, scripts):
@@ -91,15 +93,65 @@ def shortcut_possible(sc, f):
     return f.check_size and bool(sc["fs"])
 
 
+def e2e_one(chk, sseed):
+    """whole runs: every run terminates (no deadlock between the repository and the transfer semaphores, whatever
+    nthreads and the number of repositories) within the per-URL request bound"""
+    import random
+    from collections import Counter
+    from e2e import common, run_e2e, scenario
+    rng = random.Random(sseed)
+    nrepos = rng.randint(1, 4)
+    nthreads = rng.choice([1, 1, 2, 2, 3, 4, 8])
+    w = common.World(rng, nrepos, settings={"nthreads": str(nthreads)})
+    try:
+        stores = w.stores()
+        plans = {}
+        classes = []
+        for r in w.repos:
+            cls = rng.choice(["none", "transient", "persistent-required", "persistent-optional"])
+            classes.append(cls)
+            plans[r["url"]], _ = scenario.gen_plan(rng, cls, r, w.cfgs[r["url"]], stores[r["url"]])
+        res = run_e2e.execute(w.sb, w.repos, stores, plans, vloop.RandomChooser(rng.randrange(1 << 30)), budget=6000)
+        replay = {"e2e": True, "scenario_seed": sseed, "nrepos": nrepos, "nthreads": nthreads, "classes": classes}
+        if res.exit not in (0, 1):
+            kind = type(res.exception).__name__ if res.exception is not None else "?"
+            chk.violation("run-does-not-terminate:" + kind, replay,
+                          f"{nrepos} repositories, nthreads {nthreads}, classes {classes}: no exit status ({kind}: {res.exception})")
+        cnt = Counter(res.net.log)
+        rounds = 3  # release_files_retries of the sandbox
+        for u, n in cnt.items():
+            if n > 10 * rounds * 2:
+                chk.violation("run-request-bound", replay, f"{u} requested {n} times in one run")
+                break
+        chk.evaluated(("e2e", nrepos, nthreads, tuple(sorted(classes))),
+                      sample={"repositories": nrepos, "nthreads": nthreads, "classes": classes, "exit": res.exit,
+                              "requests": len(res.net.log), "max_per_url": max(cnt.values()) if cnt else 0})
+        chk.count("e2e_runs")
+        chk.count("e2e_runs_repos>=nthreads", 1 if nrepos >= nthreads else 0)
+        chk.traces += 1
+    finally:
+        w.destroy()
+
+
 def run(chk, tier, rng):
     n = 300 if tier == "quick" else 5000
     for i in range(n):
         sc = l1.gen_scenario(rng)
         one(chk, sc)
+    for i in range(24 if tier == "quick" else 500):
+        e2e_one(chk, f"C12E-{chk.seed}-{i}")
     chk.assumptions += ["reconnect signals are finitely many per URL (scripts are finite lists)"]
 
 
 def replay(rep):
+    if rep["replay"].get("e2e"):
+        from core.check import Check
+        chk = Check("C12", "quick", 0)
+        chk.known = []
+        e2e_one(chk, rep["replay"]["scenario_seed"])
+        for sig, path, msg, _ in chk.violations:
+            print(f"REPLAY VIOLATION {sig}: {msg}")
+        return 1 if chk.violations else 0
     sc = l1.scenario_from_json(rep["replay"].get("scenario", rep["replay"]))
     real, files = l1.run_real(sc)
     print(json.dumps({"requests": dict(real["reqs"]), "bounds": bound_for(files, sc["scripts"])}, indent=1))
